@@ -1186,10 +1186,10 @@ pub fn run(rng: &mut Rng, tier: &str, out: &str) -> Report {
     let mut rep = Report::new("anon");
     let mut cw = CaseWriter::new(out, "anon", HEADER, 1);
     let thorough = tier == "thorough";
-    let n_hist = if thorough { 300 } else { 40 };
-    let n_own = if thorough { 900 } else { 120 };
-    let n_model_hist = if thorough { 40 } else { 6 };
-    let n_model_own = if thorough { 120 } else { 16 };
+    let n_hist = if thorough { 240 } else { 40 };
+    let n_own = if thorough { 720 } else { 120 };
+    let n_model_hist = if thorough { 30 } else { 6 };
+    let n_model_own = if thorough { 88 } else { 16 };
     let max_heads = if thorough { 8 } else { 5 };
     let mut ui = 0usize;
     // ---------- histories of the family "hist" (code points)
